@@ -175,6 +175,7 @@ def const_membership(rel, name):
 
 def build():
     U = Unit('PARSER', props=P5)
+    U.tag_loops = True     # loop invariants state property-relevant facts about abstractions: a failing one is reported
     k = U.file(SK)
     k.item('enum', 'SyntaxKind')
     k.item('macro_rules', 'T')
